@@ -97,6 +97,18 @@ class Gen:
                 ws = [hexs(rbytes(r, r.choice([1, bl, bl + 1, bl * nb, bl * nb + 1, r.randrange(1, 3 * bl * nb + 2)]))) for _ in range(nw)]
                 L.append("lb %d %d %d %d %d %d %s" % (F, tag, ref, bl, nb, nw, " ".join(ws)))
                 self.any.append((tag, ref))
+            elif k < 0.33:
+                # linked blocks written at positions: backwards rewrites, and seeks past the end that leave holes
+                ref = self.newref(tag)
+                bl, nb = r.choice([1, 2, 3, 4, 5]), r.choice([1, 2, 3])
+                nw = r.choice([1, 2, 3])
+                pos, ws = 0, []
+                for _ in range(nw):
+                    n = r.choice([1, bl, bl + 1, 2 * bl])
+                    ws.append("%d %s" % (pos, hexs(rbytes(r, n))))
+                    pos = r.choice([pos + n, pos + n, max(0, pos - 1), pos + n + r.choice([1, bl, bl * nb, 2 * bl * nb])])
+                L.append("lbs %d %d %d %d %d %d %s" % (F, tag, ref, bl, nb, nw, " ".join(ws)))
+                self.any.append((tag, ref))
             elif k < 0.36:
                 if self.plain and self.napp < 2:
                     t, rf = r.choice(self.plain)
